@@ -840,6 +840,14 @@ func writeEvidence(verif string, p *Profile, tier string, base uint64, agg *work
 			probes[k] = v
 		}
 	}
+	// the cluster worlds count their nemesis / foreign events among the workload counters: they are faults too
+	for k, v := range agg.Extra {
+		for _, pre := range []string{"nem_", "foreign_", "pd_restarts", "double_failures", "silent_regions", "cmd_ignored_deaf", "storage_faults", "lagging_new_leader_sent", "stale_or_duplicate_sent", "admin_races_checker_op"} {
+			if strings.HasPrefix(k, pre) {
+				faults["fault.world."+k] = v
+			}
+		}
+	}
 	var samples []any
 	for _, s := range agg.Samples {
 		samples = append(samples, map[string]any{"seed": s.Seed, "run": s.Run, "mode": s.Mode, "knobs": s.Knobs, "steps": s.Steps, "sim_time_s": s.SimTime,
